@@ -70,6 +70,12 @@ impl<F: fmt::Debug + Read + Seek + SetLen> FileWithInlineMeta<F> {
                     break 0;
                 };
 
+                if skipping_over_corrupted_data && line[..2] != meta::PREAMBLE {
+                    // the time these lines are relative to got lost with the
+                    // corrupt meta section, drop them
+                    continue;
+                }
+
                 if line[..2] != meta::PREAMBLE && !skipping_over_corrupted_data {
                     let debug_res = processor(ts_from(line, meta_ts), &line[2..])
                         .map_err(Error::Processor);
@@ -87,6 +93,7 @@ impl<F: fmt::Debug + Read + Seek + SetLen> FileWithInlineMeta<F> {
                 if next_line[..2] != meta::PREAMBLE {
                     if let Some(corruption_accepted) = corruption_callback {
                         if corruption_accepted() {
+                            skipping_over_corrupted_data = true;
                             continue;
                         } else {
                             return Err(Error::CorruptMetaSection);
